@@ -232,6 +232,12 @@ def run_case(work, case):
         user_t = parsed2[0]
         res['user_includes'] = IncludeGenerator(lang, user_t, True).generate_include_filepart_list(lang.extension, False)
         dep_t = user_t.fields[0].data_type
+        if case['lang'] == 'py':
+            # Python refers to a type through its package: filter_imports (dotted, stropped namespace) and
+            # filter_full_reference_name; both must name the directory chain / module the type file was written to
+            from nunavut.lang.py import filter_imports, filter_full_reference_name
+            res['user_py_imports'] = list(filter_imports(lang, user_t))
+            res['user_py_full_reference'] = filter_full_reference_name(lang, dep_t)
         res['user_dep_make_path'] = list(IncludeGenerator.make_path(dep_t, lang, lang.extension).parts)
         if gen == 'api':
             sb2 = os.path.join(cdir, 'sandbox2')
